@@ -53,6 +53,9 @@ type insAnalyzer struct {
 	fo       *ForkOnly
 	fkLocals map[types.Object]bool
 	recvOnly map[string]bool
+	// zeroLocals: locals defined once from a fork-zero-valued expression and never re-assigned: they hold
+	// the zero value whenever no Aspect state exists
+	zeroLocals map[types.Object]bool
 }
 
 func (a *insAnalyzer) calleeName(call *ast.CallExpr) (string, types.Object) {
@@ -186,10 +189,18 @@ func (a *insAnalyzer) effects(n ast.Node) []effect {
 			walk(s)
 		}
 	}
+	tempBusy := map[*ast.Ident]bool{}
 	var walkExpr func(e ast.Expr)
 	walkExpr = func(e ast.Expr) {
 		ast.Inspect(e, func(x ast.Node) bool {
 			switch x := x.(type) {
+			case *ast.Ident:
+				// a value temporary stands for its defining expression (valtemps.go)
+				if te, ok := valTempExpr[a.info.Uses[x]]; ok && !tempBusy[x] {
+					tempBusy[x] = true
+					walkExpr(te)
+					delete(tempBusy, x)
+				}
 			case *ast.FuncLit:
 				// a closure value: its body's effects happen when called; analyse as part of the insertion
 				save := loopDepth
@@ -232,7 +243,11 @@ func (a *insAnalyzer) effects(n ast.Node) []effect {
 					case strings.HasSuffix(name, ".PreContractCall") || strings.HasSuffix(name, ".PostContractCall"):
 						out = append(out, effect{"call-jp", name, x.Pos()})
 					default:
-						out = append(out, effect{"call-other", name, x.Pos()})
+						if hes, ok := a.helperEffects(f, x.Pos()); ok {
+							out = append(out, hes...)
+						} else {
+							out = append(out, effect{"call-other", name, x.Pos()})
+						}
 					}
 				default:
 					out = append(out, effect{"call-other", "dynamic call " + (&astCanon{info: a.info}).expr(x.Fun), x.Pos()})
@@ -353,6 +368,70 @@ func (a *insAnalyzer) effects(n ast.Node) []effect {
 	return out
 }
 
+// helperEffects: a call to a fork-only (NEW) function of a fork package has the effects of the
+// helper's own body, judged by the same rules (its parameters, results and locals are fork locals;
+// a store through a pointer parameter or the receiver is a store to whatever the path names). The
+// helper's `return`s end the helper, not the caller, and are dropped. Recursive helpers stay opaque.
+var helperEffMemo = map[*types.Func][]effect{}
+var helperEffBusy = map[*types.Func]bool{}
+
+func relNameOfFunc(f *types.Func) string {
+	sig, ok := f.Type().(*types.Signature)
+	if !ok || sig.Recv() == nil {
+		return f.Name()
+	}
+	t := sig.Recv().Type()
+	ptr := false
+	if p, ok := t.(*types.Pointer); ok {
+		t, ptr = p.Elem(), true
+	}
+	nt, ok := t.(*types.Named)
+	if !ok {
+		return ""
+	}
+	if ptr {
+		return "(*" + nt.Obj().Name() + ")." + f.Name()
+	}
+	return "(" + nt.Obj().Name() + ")." + f.Name()
+}
+
+func (a *insAnalyzer) helperEffects(f *types.Func, at token.Pos) ([]effect, bool) {
+	if f.Pkg() == nil || helperEffBusy[f] {
+		return nil, false
+	}
+	pair := -1
+	for i := range pkgPairs {
+		if forkPath(i) == f.Pkg().Path() {
+			pair = i
+		}
+	}
+	rel := relNameOfFunc(f)
+	if pair < 0 || rel == "" || a.w.funcIdx[refPath(pair)][rel] != nil {
+		return nil, false
+	}
+	if es, ok := helperEffMemo[f]; ok {
+		return es, es != nil
+	}
+	fd, p := a.w.FuncDecl(forkPath(pair), rel)
+	if fd == nil || fd.Body == nil || p == nil {
+		return nil, false
+	}
+	helperEffBusy[f] = true
+	defer delete(helperEffBusy, f)
+	h := &insAnalyzer{w: a.w, info: p.TypesInfo, fo: a.fo, fkLocals: declaredLocals(p.TypesInfo, fd), recvOnly: map[string]bool{}}
+	es := []effect{}
+	for _, e := range h.effects(fd.Body) {
+		if e.kind == "return" {
+			continue
+		}
+		e.what = rel + ": " + e.what
+		e.pos = at
+		es = append(es, e)
+	}
+	helperEffMemo[f] = es
+	return es, true
+}
+
 // zeroStateFalse: is cond certainly false when every fork-only field holds its zero value?
 func (a *insAnalyzer) zeroStateFalse(cond ast.Expr) bool {
 	cond = ast.Unparen(cond)
@@ -422,6 +501,182 @@ func (a *insAnalyzer) zeroStateFalse(cond ast.Expr) bool {
 	return false
 }
 
+// computeZeroLocals fills zeroLocals for the function fd.
+func (a *insAnalyzer) computeZeroLocals(fd *ast.FuncDecl) {
+	a.zeroLocals = map[types.Object]bool{}
+	if fd == nil || fd.Body == nil {
+		return
+	}
+	defs := map[types.Object]ast.Expr{}
+	spoiled := map[types.Object]bool{}
+	def := func(id *ast.Ident, rhs ast.Expr) {
+		if o := a.info.Defs[id]; o != nil {
+			if _, dup := defs[o]; dup {
+				spoiled[o] = true
+			}
+			defs[o] = rhs
+		}
+	}
+	ast.Inspect(fd.Body, func(n ast.Node) bool {
+		switch x := n.(type) {
+		case *ast.AssignStmt:
+			for i, l := range x.Lhs {
+				id, ok := l.(*ast.Ident)
+				if !ok {
+					continue
+				}
+				if x.Tok == token.DEFINE && a.info.Defs[id] != nil && len(x.Lhs) == len(x.Rhs) {
+					def(id, x.Rhs[i])
+				} else if o := a.info.Uses[id]; o != nil {
+					spoiled[o] = true
+				} else if o := a.info.Defs[id]; o != nil {
+					spoiled[o] = true // defined by a multi-value assignment
+				}
+			}
+		case *ast.ValueSpec:
+			for i, id := range x.Names {
+				if len(x.Values) == len(x.Names) {
+					def(id, x.Values[i])
+				} else if o := a.info.Defs[id]; o != nil {
+					spoiled[o] = true
+				}
+			}
+		case *ast.IncDecStmt:
+			if id, ok := x.X.(*ast.Ident); ok {
+				spoiled[a.info.Uses[id]] = true
+			}
+		case *ast.RangeStmt:
+			for _, kv := range []ast.Expr{x.Key, x.Value} {
+				if id, ok := kv.(*ast.Ident); ok {
+					if o := a.info.Uses[id]; o != nil {
+						spoiled[o] = true
+					}
+					if o := a.info.Defs[id]; o != nil {
+						spoiled[o] = true
+					}
+				}
+			}
+		case *ast.UnaryExpr:
+			if id, ok := ast.Unparen(x.X).(*ast.Ident); ok && x.Op == token.AND {
+				spoiled[a.info.Uses[id]] = true
+			}
+		}
+		return true
+	})
+	for round := 0; round < 3; round++ {
+		for o, rhs := range defs {
+			if !spoiled[o] && rhs != nil && a.isForkZeroValued(rhs) {
+				a.zeroLocals[o] = true
+			}
+		}
+	}
+}
+
+// zeroTripLoop: `for i := c; i < len(F); post { … }` (or `len(F) > i`) with a constant c >= 0, a
+// fork-local i and F ending in a fork-only field.
+func (a *insAnalyzer) zeroTripLoop(s *ast.ForStmt) bool {
+	init, ok := s.Init.(*ast.AssignStmt)
+	if !ok || init.Tok != token.DEFINE || len(init.Lhs) != 1 || len(init.Rhs) != 1 || s.Cond == nil {
+		return false
+	}
+	iv, ok := init.Lhs[0].(*ast.Ident)
+	tv := a.info.Types[init.Rhs[0]]
+	if !ok || a.info.Defs[iv] == nil || tv.Value == nil || tv.Value.Kind() != constant.Int || constant.Sign(tv.Value) < 0 {
+		return false
+	}
+	b, ok := ast.Unparen(s.Cond).(*ast.BinaryExpr)
+	if !ok {
+		return false
+	}
+	x, y := ast.Unparen(b.X), ast.Unparen(b.Y)
+	switch b.Op {
+	case token.LSS:
+	case token.GTR:
+		x, y = y, x
+	default:
+		return false
+	}
+	id, ok := x.(*ast.Ident)
+	if !ok || a.info.Uses[id] != a.info.Defs[iv] {
+		return false
+	}
+	call, ok := y.(*ast.CallExpr)
+	return ok && a.isForkZeroValued(call)
+}
+
+// isCancunRule: cond is the field IsCancun of go-ethereum's params.Rules.
+func (a *insAnalyzer) isCancunRule(cond ast.Expr) bool {
+	sel, ok := ast.Unparen(cond).(*ast.SelectorExpr)
+	if !ok {
+		return false
+	}
+	v, ok := a.info.Selections[sel]
+	return ok && v.Obj().Name() == "IsCancun" && v.Obj().Pkg() != nil && v.Obj().Pkg().Path() == "github.com/ethereum/go-ethereum/params"
+}
+
+// pureLocalDefine: st is `x, y := …` defining new locals from expressions without effects.
+func (a *insAnalyzer) pureLocalDefine(st ast.Stmt) bool {
+	as, ok := st.(*ast.AssignStmt)
+	if !ok || as.Tok != token.DEFINE {
+		return false
+	}
+	for _, l := range as.Lhs {
+		id, ok := l.(*ast.Ident)
+		if !ok || (id.Name != "_" && a.info.Defs[id] == nil) {
+			return false
+		}
+	}
+	for _, e := range a.effects(as) {
+		if e.kind != "call-pure" && e.kind != "write-fork" {
+			return false
+		}
+	}
+	return true
+}
+
+// zeroStateTrue: is cond certainly true when every fork-only field holds its zero value?
+func (a *insAnalyzer) zeroStateTrue(cond ast.Expr) bool {
+	cond = ast.Unparen(cond)
+	switch x := cond.(type) {
+	case *ast.UnaryExpr:
+		if x.Op == token.NOT {
+			return a.zeroStateFalse(x.X)
+		}
+	case *ast.BinaryExpr:
+		switch x.Op {
+		case token.LOR:
+			return a.zeroStateTrue(x.X) || a.zeroStateTrue(x.Y)
+		case token.LAND:
+			return a.zeroStateTrue(x.X) && a.zeroStateTrue(x.Y)
+		case token.EQL, token.NEQ:
+			l, r := ast.Unparen(x.X), ast.Unparen(x.Y)
+			if !a.isForkZeroValued(l) && a.isForkZeroValued(r) {
+				l, r = r, l
+			}
+			if !a.isForkZeroValued(l) {
+				return false
+			}
+			rv := a.info.Types[r]
+			isZero, isNonZero := rv.IsNil(), false
+			if rv.Value != nil {
+				switch rv.Value.Kind() {
+				case constant.Int:
+					isZero, isNonZero = constant.Sign(rv.Value) == 0, constant.Sign(rv.Value) != 0
+				case constant.String:
+					isZero, isNonZero = constant.StringVal(rv.Value) == "", constant.StringVal(rv.Value) != ""
+				case constant.Bool:
+					isZero, isNonZero = !constant.BoolVal(rv.Value), constant.BoolVal(rv.Value)
+				}
+			}
+			if x.Op == token.EQL {
+				return isZero // F == 0 is true at zero state
+			}
+			return isNonZero // F != c (c != 0) is true at zero state
+		}
+	}
+	return false
+}
+
 // isForkZeroValued: expression whose value is the zero value when no Aspect state exists:
 // a fork-only field path, or len() of one.
 func (a *insAnalyzer) isForkZeroValued(e ast.Expr) bool {
@@ -441,6 +696,12 @@ func (a *insAnalyzer) isForkZeroValued(e ast.Expr) bool {
 // that field's value, which is zero when no Aspect state was ever written.
 func (a *insAnalyzer) lastFieldForkOnly(e ast.Expr) bool {
 	e = ast.Unparen(e)
+	if id, ok := e.(*ast.Ident); ok {
+		if x, bound := inlineArg[a.info.Uses[id]]; bound {
+			return a.lastFieldForkOnly(x) // a helper parameter bound to the argument of an expanded call
+		}
+		return a.zeroLocals[a.info.Uses[id]]
+	}
 	sel, ok := e.(*ast.SelectorExpr)
 	if !ok {
 		return false
@@ -490,10 +751,24 @@ func (a *insAnalyzer) classifyInsertion(in *Insertion) *InsVerdict {
 			v.Class, v.OK, v.Why = "FORK_LOOP", true, "range over a fork-only field: zero iterations without Aspect state"
 			return v
 		}
+	case *ast.ForStmt:
+		// for i := c; i < len(F); … with c >= 0 and F fork-only: the condition fails at the first test
+		if in.Case == nil && in.AbsorbRef < 0 && a.zeroTripLoop(s) {
+			v.Class, v.OK, v.Why = "FORK_LOOP", true, "counted loop bounded by the length of a fork-only field: zero iterations without Aspect state"
+			return v
+		}
 	case *ast.IfStmt:
-		if in.Case == nil && s.Init == nil {
+		if in.Case == nil && (s.Init == nil || a.pureLocalDefine(s.Init)) {
 			if in.AbsorbRef >= 0 {
 				// the reference statements must sit in the branch taken at zero state
+				if a.isCancunRule(s.Cond) && in.AbsorbRef == 1 {
+					v.Class, v.OK, v.Why = "FORK_GUARD", true, "guarded by params.Rules.IsCancun, which is false for every fork rule set up to Shanghai (same assumption as for the inserted switch case); the reference statements are in the else branch"
+					return v
+				}
+				if a.zeroStateTrue(s.Cond) && in.AbsorbRef == 0 {
+					v.Class, v.OK, v.Why = "FORK_GUARD", true, "condition on fork-only state is true without Aspect state; the reference statements are in the then branch, the else branch is dead"
+					return v
+				}
 				if a.zeroStateFalse(s.Cond) && in.AbsorbRef == 1 {
 					v.Class, v.OK, v.Why = "FORK_GUARD", true, "condition on fork-only state is false without Aspect state; the reference statements are in the else branch"
 					return v
